@@ -10,6 +10,7 @@
 From Coq Require Import List NArith ZArith Bool.
 Import ListNotations.
 Require Import MV.C07.Exec MV.C07.ProofsBase MV.C07.ProofsInv MV.C07.ProofsSpec MV.C07.ProofsClauses MV.C07.ProofsWalk.
+Require Import MV.Common.Interleave MV.C07.ConcModel MV.C07.ConcInv MV.C07.ConcProofs.
 Open Scope N_scope.
 
 Theorem C07_model_meets_spec : forall c h, wf_names c = true -> snd (run c init h) = spec_outs c h.
@@ -102,3 +103,93 @@ Theorem C07_example_nontrivial :
   /\ In {| a_fam := [99]; a_type := 0; a_help := None; a_name := [99]; a_labels := [[103; 61; 34; 49; 34]];
            a_extra := XNone; a_val := VInt 1 |} (last (run_case ex_case) []).
 Proof. vm_compute. repeat split; auto 20. Qed.
+
+(* ------------------------------------------------------------------------------------------------
+   The concurrent clause: interleaving model of ConcModel.v (Common/Interleave.v).  [final ps sched] is
+   the configuration reached by threads running the programs [ps] under the schedule [sched] (ANY list
+   of thread indices); [c_log] its ghost history; [recorded k log] the values pushed under key k,
+   [drained k log] the values taken by clear steps, [aggregated k log] those folded into the key's
+   distribution entry, [inflight] those a clear has taken and its holder of the lock has not folded yet.
+   Atomicity of the single steps is assumed from C04 / C05 (outside its open late-claim class) / C06;
+   the model is tied to the code by the free-running engines only. *)
+
+(* (a) exactly once, at every configuration of every schedule: what was drained, followed by what is in
+   the bucket, IS what was recorded (same values, same order, nothing twice); what was drained is in the
+   distribution entry or in flight inside the critical section; the entry's count and sum are those of
+   the aggregated values *)
+Theorem C07_conc_every_sample_once : forall ps sched k,
+  let s := fst (final ps sched) in
+  drained k (c_log s) ++ c_bkt s k = recorded k (c_log s)
+  /\ drained k (c_log s) = aggregated k (c_log s) ++ inflight k (c_lock s)
+  /\ c_agg s k = (N.of_nat (List.length (aggregated k (c_log s))), zsumc (aggregated k (c_log s)))
+  /\ fst (c_agg s k) + N.of_nat (List.length (inflight k (c_lock s))) + N.of_nat (List.length (c_bkt s k))
+     = N.of_nat (List.length (recorded k (c_log s)))
+  /\ (snd (c_agg s k) + zsumc (inflight k (c_lock s)) + zsumc (c_bkt s k))%Z = zsumc (recorded k (c_log s)).
+Proof. exact conc_conservation. Qed.
+
+(* a clear step takes all the records of the key pushed before it and not taken by an earlier clear *)
+Theorem C07_conc_drain_takes_all_pushed_before : forall ps sched l1 k xs l2,
+  c_log (fst (final ps sched)) = l1 ++ EDrain k xs :: l2 -> drained k l1 ++ xs = recorded k l1.
+Proof. exact conc_drain. Qed.
+
+(* a render's _count / _sum of a key = the values drained (by any thread) before its snapshot step: an
+   initial segment, in push order, of the records pushed before it *)
+Theorem C07_conc_render_shows_drained : forall ps sched l1 out l2 k c sm,
+  c_log (fst (final ps sched)) = l1 ++ ESnap out :: l2 -> In (k, (c, sm)) out ->
+  c = N.of_nat (List.length (drained k l1)) /\ sm = zsumc (drained k l1)
+  /\ exists rest, drained k l1 ++ rest = recorded k l1.
+Proof. exact conc_snapshot. Qed.
+
+(* (b) visibility: every record pushed before a clear of its key (the render's own, or anybody's) that
+   precedes the snapshot is in that snapshot; and _count never decreases from a snapshot to a later one *)
+Theorem C07_conc_visibility : forall ps sched l1 k xs l2 out l3 c sm,
+  c_log (fst (final ps sched)) = l1 ++ EDrain k xs :: l2 ++ ESnap out :: l3 -> In (k, (c, sm)) out ->
+  N.of_nat (List.length (recorded k l1)) <= c
+  /\ exists more, drained k (l1 ++ EDrain k xs :: l2) = recorded k l1 ++ more.
+Proof. exact conc_visibility. Qed.
+
+Theorem C07_conc_count_monotone : forall ps sched l1 o1 l2 o2 l3 k c1 s1 c2 s2,
+  c_log (fst (final ps sched)) = l1 ++ ESnap o1 :: l2 ++ ESnap o2 :: l3 ->
+  In (k, (c1, s1)) o1 -> In (k, (c2, s2)) o2 -> c1 <= c2.
+Proof. exact conc_count_monotone. Qed.
+
+(* (c) a counter / gauge reading is the sequential fold (fetch_add mod 2^64 / fetch_max; set / + / -) of
+   the updates whose step preceded the load; counters do not go backwards while the total does not wrap *)
+Theorem C07_conc_counter_gauge_reading : forall ps sched,
+  (forall l1 k v l2, c_log (fst (final ps sched)) = l1 ++ ELoadC k v :: l2 -> v = fold_left capply (cupds k l1) 0)
+  /\ (forall l1 k z l2, c_log (fst (final ps sched)) = l1 ++ ELoadG k z :: l2 -> z = fold_left gapply (gupds k l1) 0%Z)
+  /\ (forall l1 k v1 l2 v2 l3, c_log (fst (final ps sched)) = l1 ++ ELoadC k v1 :: l2 ++ ELoadC k v2 :: l3 ->
+      cbound (cupds k (l1 ++ ELoadC k v1 :: l2)) < two64c -> v1 <= v2).
+Proof.
+  intros ps sched. split; [apply conc_load_counter|split; [apply conc_load_gauge|apply conc_counter_monotone]].
+Qed.
+
+(* (d) two snapshots with no record of the key since a clear that precedes the first one show the same
+   _count and _sum, namely all the records pushed before that clear *)
+Theorem C07_conc_render_twice : forall ps sched l0 k xs m o1 l2 o2 l3 c1 s1 c2 s2,
+  c_log (fst (final ps sched)) = l0 ++ EDrain k xs :: m ++ ESnap o1 :: l2 ++ ESnap o2 :: l3 ->
+  recorded k (m ++ ESnap o1 :: l2) = [] ->
+  In (k, (c1, s1)) o1 -> In (k, (c2, s2)) o2 ->
+  c1 = c2 /\ s1 = s2 /\ c1 = N.of_nat (List.length (recorded k l0)) /\ s1 = zsumc (recorded k l0).
+Proof. exact conc_render_twice. Qed.
+
+(* what a thread's render() returned is what its load and snapshot steps logged *)
+Theorem C07_conc_outputs_are_steps : forall ps sched l r,
+  In l (snd (final ps sched)) -> In r (outs l) ->
+  let log := c_log (fst (final ps sched)) in
+  In (ESnap (r_dist r)) log /\
+  (forall k v, In (k, v) (r_ctr r) -> In (ELoadC k v) log) /\
+  (forall k z, In (k, z) (r_gau r) -> In (ELoadG k z) log).
+Proof. exact conc_outputs_are_steps. Qed.
+
+(* a racing schedule evaluated: two recorders, a render and an upkeep; the upkeep holds the lock while
+   the render waits, records race both clears, a record pushed after the render's clear is not in its
+   first snapshot (4 samples, sum 10) and is in the second (5, 15) *)
+Theorem C07_conc_example :
+  outs (nth 2 (snd (final ex_progs ex_sched)) (init_local (0, [])))
+  = [ {| r_ctr := []; r_gau := []; r_dist := [(7, (4, 10%Z))] |};
+      {| r_ctr := [(3, 9)]; r_gau := [(9, 4%Z)]; r_dist := [(7, (5, 15%Z))] |} ]
+  /\ c_lock (fst (final ex_progs ex_sched)) = Free
+  /\ c_bkt (fst (final ex_progs ex_sched)) 7 = [].
+Proof. exact conc_example. Qed.
+
